@@ -401,7 +401,8 @@ funcbits(struct func *f, struct type *t, struct value *v, struct bitfield b)
 
 	class = t->size <= 4 ? 'w' : 'l';
 	bits = b.after;
-	if (bits) {
+	/* discard the bits above the storage unit as well; they are only known to be clean after a load */
+	if (bits || b.before && t->size < 4) {
 		bits += (t->size + 3 & ~3) - t->size << 3;
 		v = funcinst(f, ISHL, class, v, mkintconst(bits));
 	}
